@@ -536,7 +536,14 @@ class R:
                 d[m] = v
             else:
                 del d[m]
-        return _mk(d, s, o)
+        r = _mk(d, s, o)
+        ctx = Ctx.cur
+        if ctx is not None and ctx.sqrt_rad and not isinstance(r, I):
+            for m in d:
+                for g, e in m:
+                    if e <= -2 and g in ctx.sqrt_rad:
+                        return _reduce_sqrt(r)
+        return r
 
     __radd__ = __add__
 
@@ -1037,41 +1044,140 @@ def _pow_uf(base, expo):
     return R.gen(g)
 
 
+def _mono_key(m):
+    return (sum(e for _, e in m), m)
+
+
+def _exact_div(P, D):
+    """P / D for polynomials (dict monomial->Fraction, non-negative exponents) if the division is exact, else None"""
+    if not D:
+        return None
+    dl = max(D, key=_mono_key)
+    dlc = D[dl]
+    dld = dict(dl)
+    rem = dict(P)
+    quo = {}
+    steps = 0
+    while rem:
+        steps += 1
+        if steps > 4000:
+            return None
+        lt = max(rem, key=_mono_key)
+        ltd = dict(lt)
+        # lt must be divisible by dl
+        q = {}
+        ok = True
+        for g, e in dld.items():
+            if ltd.get(g, 0) < e:
+                ok = False
+                break
+        if not ok:
+            return None
+        for g, e in ltd.items():
+            v = e - dld.get(g, 0)
+            if v:
+                q[g] = v
+        qm = tuple(sorted(q.items()))
+        qc = rem[lt] / dlc
+        quo[qm] = quo.get(qm, 0) + qc
+        for m, c in D.items():
+            mm = _mmul(m, qm)
+            v = rem.get(mm, 0) - c * qc
+            if v:
+                rem[mm] = v
+            else:
+                rem.pop(mm, None)
+    return quo
+
+
 def _reduce_sqrt(r):
-    """replace g^2 by its radicand for sqrt generators (keeps forms canonical modulo g*g = rad)"""
+    """keep forms canonical modulo g*g = rad for sqrt generators: g^2 -> rad; terms with g^-2k are divided by
+    rad^k when that division is exact"""
     ctx = Ctx.cur
     if ctx is None or not ctx.sqrt_rad:
         return r
     sr = ctx.sqrt_rad
-    todo = False
+    pos = neg = False
     for m in r.p:
         for g, e in m:
-            if e >= 2 and g in sr:
-                todo = True
-                break
-        if todo:
-            break
-    if not todo:
+            if g in sr:
+                if e >= 2:
+                    pos = True
+                elif e <= -2:
+                    neg = True
+    if not pos and not neg:
         return r
-    acc = R(0)
-    keep = {}
-    for m, c in r.p.items():
-        factor = None
-        newm = []
-        for g, e in m:
-            if e >= 2 and g in sr:
-                q, rem = divmod(e, 2)
-                f = sr[g] ** q
-                factor = f if factor is None else factor * f
-                if rem:
-                    newm.append((g, 1))
+    if pos:
+        acc = R(0)
+        keep = {}
+        for m, c in r.p.items():
+            factor = None
+            newm = []
+            for g, e in m:
+                if e >= 2 and g in sr:
+                    q, rem = divmod(e, 2)
+                    f = sr[g] ** q
+                    factor = f if factor is None else factor * f
+                    if rem:
+                        newm.append((g, 1))
+                else:
+                    newm.append((g, e))
+            if factor is None:
+                keep[m] = c
             else:
-                newm.append((g, e))
-        if factor is None:
-            keep[m] = c
-        else:
-            acc = acc + R({tuple(newm): c}) * factor
-    return R(keep) + acc
+                acc = acc + R({tuple(newm): c}) * factor
+        r = R(keep) + acc
+        neg = any(e <= -2 and g in sr for m in r.p for g, e in m)
+    if not neg:
+        return r
+    # group by (g, even negative power) one generator at a time
+    for g in sorted({g for m in r.p for g, e in m if g in sr and e <= -2}):
+        groups = {}
+        for m, c in r.p.items():
+            e = dict(m).get(g, 0)
+            groups.setdefault(e, {})[tuple(x for x in m if x[0] != g)] = c
+        out = {}
+        changed = False
+        for e, poly in groups.items():
+            done = False
+            if e <= -2:
+                k = (-e) // 2
+                rad = sr[g]
+                # clear negative exponents of poly and rad by a common monomial shift
+                den = rad ** k if k > 1 else rad
+                if all(ee >= 0 for m in den.p for _, ee in m):
+                    shift = {}
+                    for m in poly:
+                        for gg, ee in m:
+                            if ee < 0:
+                                shift[gg] = max(shift.get(gg, 0), -ee)
+                    sm = tuple(sorted(shift.items()))
+                    P = {_mmul(m, sm): c for m, c in poly.items()} if sm else poly
+                    q = _exact_div(P, den.p)
+                    if q is not None:
+                        inv_sm = tuple((gg, -ee) for gg, ee in sm)
+                        rest_e = e + 2 * k
+                        for m, c in q.items():
+                            mm = _mmul(m, inv_sm) if sm else m
+                            if rest_e:
+                                mm = _mmul(mm, ((g, rest_e),))
+                            v = out.get(mm, 0) + c
+                            if v:
+                                out[mm] = v
+                            else:
+                                out.pop(mm, None)
+                        done = changed = True
+            if not done:
+                for m, c in poly.items():
+                    mm = _mmul(m, ((g, e),)) if e else m
+                    v = out.get(mm, 0) + c
+                    if v:
+                        out[mm] = v
+                    else:
+                        out.pop(mm, None)
+        if changed:
+            r = R(out)
+    return r
 
 
 class I(R):
